@@ -15,12 +15,85 @@ sys.path.insert(0, os.path.dirname(os.path.abspath(__file__)))
 from mutations import MUTATIONS  # noqa: E402
 
 SCRATCH = "/tmp/sqv-selftest"
+PRISTINE = "/tmp/sqv-selftest-pristine"
 
 
-def fresh_copy():
-    if os.path.isdir(SCRATCH):
-        shutil.rmtree(SCRATCH)
-    subprocess.check_call(["rsync", "-a", "--exclude", "target", "--exclude", ".git", "/repo/", SCRATCH + "/"])
+def fresh_copy(scratch=None):
+    scratch = scratch or SCRATCH
+    if os.path.isdir(scratch):
+        shutil.rmtree(scratch)
+    subprocess.check_call(["rsync", "-a", "--exclude", "target", "--exclude", ".git", "/repo/", scratch + "/"])
+
+
+def run_one(m, scratch):
+    """apply one mutation to a private scratch copy, run its checks, return (id, kind, ok, msgs)"""
+    global SCRATCH
+    env = dict(os.environ, SQV_REPO=scratch)
+    edits = m["edits"] if "edits" in m else [(m["file"], m["old"], m["new"])]
+    for file, old, new in edits:
+        p = os.path.join(scratch, file)
+        s = open(p).read()
+        if s.count(old) != 1:
+            return (m["id"], m["kind"], False, ["pattern occurs %d times in %s" % (s.count(old), file)])
+        open(p, "w").write(s.replace(old, new))
+    try:
+        ok_all = True
+        msgs = []
+        for pid in m["props"]:
+            r = subprocess.run([os.path.join(VERIF, "check"), pid, "--tier", m.get("tier", "quick")], cwd=VERIF, env=env,
+                               stdout=subprocess.PIPE, stderr=subprocess.STDOUT, text=True)
+            viol = [l for l in r.stdout.splitlines() if l.startswith("VIOLATION") or l.startswith("  rule=")]
+            keys = [l for l in r.stdout.splitlines() if l.startswith("  rule=")]
+            if m["kind"] == "breaking":
+                ok = r.returncode == 1 and any(m["expect"] in k for k in keys)
+            else:
+                ok = r.returncode == 0 and not viol
+            if "extraction failed" in r.stdout:
+                ok = False
+                msgs.append("DOES NOT COMPILE")
+            ok_all = ok_all and ok
+            msgs.append("%s rc=%d %s" % (pid, r.returncode, " | ".join(k.strip()[:160] for k in keys[:3])))
+        return (m["id"], m["kind"], ok_all, msgs)
+    finally:
+        for file, _, _ in edits:
+            shutil.copy2(os.path.join(PRISTINE, file), os.path.join(scratch, file))
+
+
+def main_parallel(sel, jobs):
+    import concurrent.futures
+    import queue
+    todo = [m for m in MUTATIONS if not sel or any(s in m["id"] for s in sel)]
+    pool = queue.Queue()
+    fresh_copy(PRISTINE)          # restores come from this snapshot, so /repo may be touched while the corpus runs
+    dirs = [PRISTINE]
+    for k in range(jobs):
+        d = "%s-%d" % (SCRATCH, k)
+        if os.path.isdir(d):
+            shutil.rmtree(d)
+        shutil.copytree(PRISTINE, d)
+        dirs.append(d)
+        pool.put(d)
+    results = []
+
+    def work(m):
+        d = pool.get()
+        try:
+            return run_one(m, d)
+        finally:
+            pool.put(d)
+    try:
+        with concurrent.futures.ThreadPoolExecutor(max_workers=jobs) as ex:
+            for r in ex.map(work, todo):
+                results.append(r)
+                print("%-5s %-9s %-40s %s" % ("ok" if r[2] else "FAIL", r[1], r[0], "; ".join(r[3])), flush=True)
+    finally:
+        for d in dirs:
+            shutil.rmtree(d, ignore_errors=True)
+    bad = [r for r in results if not r[2]]
+    print("%d mutations, %d as expected, %d not" % (len(results), len(results) - len(bad), len(bad)))
+    with open(os.path.join(VERIF, "selftest", "last_results.json"), "w") as f:
+        json.dump([{"id": a, "kind": b, "as_expected": c, "out": d} for a, b, c, d in results], f, indent=1)
+    return 1 if bad else 0
 
 
 def apply(m):
@@ -42,7 +115,15 @@ def restore(files):
 
 
 def main():
-    sel = [a for a in sys.argv[1:] if not a.startswith("--")]
+    args = sys.argv[1:]
+    jobs = 1
+    if "--jobs" in args:
+        i = args.index("--jobs")
+        jobs = int(args[i + 1])
+        del args[i:i + 2]
+    sel = [a for a in args if not a.startswith("--")]
+    if jobs >= 1 and "--serial" not in sys.argv:
+        return main_parallel(sel, jobs)
     fresh_copy()
     results = []
     env = dict(os.environ, SQV_REPO=SCRATCH)
